@@ -81,10 +81,10 @@ def main():
                 kwargs['block'] = tuple([tuple(bl[0]), tuple(bl[1])] + list(bl[2:]))
             if isinstance(kwargs.get('psi'), dict):
                 p = kwargs['psi']
-                if p['form'] == 'npint':
+                if p['form'] in ('npint', 'npuint'):
                     kwargs['psi'] = int(p['v'][0])       # no NumPy in this interpreter
                 else:
-                    kwargs['psi'] = tuple(p['v']) if p['form'] in ('tuple', 'nptuple') else list(p['v'])
+                    kwargs['psi'] = tuple(p['v']) if p['form'] in ('tuple', 'nptuple', 'nputuple') else list(p['v'])
             reps = int(req.get('repeat', 1))
             v = fn(*args, **kwargs)
             if reps > 1:
